@@ -7,12 +7,13 @@ from __future__ import annotations
 
 import copy
 import enum
+import time
 from collections import deque
 from typing import Any, Dict, List, Optional, Tuple
 
 import numpy as np
 
-from bridge_env import Bid, BiddingPhase, BiddingPhaseState, Contract, Player, Vul
+from bridge_env import Bid, BiddingPhase, BiddingPhaseState, Contract, Pair, Player, Vul
 
 from .. import adapt
 from ..core import Counter
@@ -21,6 +22,7 @@ from ..ref import auction as R
 CALLS = R.CALLS
 CALL_OBJS = [adapt.call_obj(n) for n in CALLS]
 BIDSTR = {b: str(b) for b in Bid}
+UNIT_TIME_BOX = 240.0          # seconds per graph unit; a unit that needs longer is cut (reported as a cap, exhaustive: false)
 HISTORY_ONLY_SUFFIXES = ('__bid_history', '__players_bid_history', '__declarer_check')
 
 
@@ -103,6 +105,13 @@ def changed(o, saved, c: Counter) -> bool:
     the evidence and is not a violation - the statement speaks of history, turn and available calls."""
     if same_state(o, saved):
         return False
+    d, e = vars(o), vars(saved)
+    diff = frozenset(k for k in set(d) | set(e) if k not in d or k not in e or not same_value(d[k], e[k]))
+    seen_benign = _BENIGN_DIFF.setdefault(type(o), {})
+    if seen_benign.get(diff, 0) >= 3:
+        # these attributes have been found to change without observable effect several times already (a counter, a cache): not probed again
+        c.inc('private_state_changed_without_observable_effect')
+        return False
 
     def futures(x):
         out = []
@@ -114,7 +123,12 @@ def changed(o, saved, c: Counter) -> bool:
     if _pub(o) != _pub(saved) or futures(o) != futures(saved):
         return True
     c.inc('private_state_changed_without_observable_effect')
+    seen_benign[diff] = seen_benign.get(diff, 0) + 1
     return False
+
+
+_BENIGN_DIFF: Dict[type, dict] = {}
+_TABLE_ATTR: Dict[type, Optional[str]] = {}
 
 
 def _pub(o):
@@ -152,11 +166,56 @@ def dump(o) -> tuple:
     return tuple((k, freeze(d[k])) for k in sorted(d))
 
 
+def history_only(k: str, v, nhist: int = -1) -> bool:
+    """Is this attribute one of the history-only fields (the call lists, the per-seat call lists, the first-to-name table, a plain
+    count of the calls made)?  Recognised by SHAPE, not by name, so that renaming private attributes does not change the search:
+    a list of calls; a dict whose values are lists of calls; a (possibly nested) dict whose leaves are seats or None; an int equal
+    to the number of calls accepted so far."""
+    if k.endswith(HISTORY_ONLY_SUFFIXES):
+        return True
+    t = type(v)
+    if t is list:
+        return all(isinstance(x, Bid) for x in v)
+    if t is int and not isinstance(v, bool):
+        return nhist >= 0 and v == nhist and nhist > 3
+    if t is dict and v:
+        vals = list(v.values())
+        if all(type(x) is list and all(isinstance(y, Bid) for y in x) for x in vals):
+            return True
+        leaves = []
+        for x in vals:
+            leaves.extend(x.values() if type(x) is dict else [x])
+        if leaves and all(y is None or isinstance(y, Player) for y in leaves) and any(isinstance(kk, (Pair, tuple)) for kk in v):
+            return True
+    return False
+
+
+_HIST_NAMES: Dict[type, frozenset] = {}
+
+
+def hist_names(o) -> frozenset:
+    """Names of the history-only attributes of this class, found once by shape on a probe auction (cached per class)."""
+    t = type(o)
+    names = _HIST_NAMES.get(t)
+    if names is None:
+        probe = t(dealer=Player.N, vul=Vul.NONE)
+        calls = [Bid.C1, Bid.X, Bid.XX, Bid.D1, Bid.Pass, Bid.H2]
+        for b in calls:
+            probe.take_bid(b)
+        found = set()
+        for k, v in vars(probe).items():
+            if history_only(k, v, len(calls)):
+                found.add(k)
+        names = _HIST_NAMES[t] = frozenset(found)
+    return names
+
+
 def canon(o: BiddingPhase, hist: List[str], cell: Optional[Tuple[str, str]]) -> tuple:
     """Key = complete attribute dump minus the history-only fields, plus what the code can still read of them:
     min(len(history),3), the last two calls, and (C03 projections) one cell of the first-to-name table."""
     d = vars(o)
-    core = tuple((k, freeze(v)) for k, v in sorted(d.items()) if not k.endswith(HISTORY_ONLY_SUFFIXES))
+    hn = hist_names(o)
+    core = tuple((k, freeze(v)) for k, v in sorted(d.items()) if k not in hn)
     extra: tuple = (min(len(hist), 3), tuple(hist[-2:]))
     if cell is not None:
         extra += (R.first_namers(hist, o.dealer.name).get(cell),)
@@ -165,7 +224,8 @@ def canon(o: BiddingPhase, hist: List[str], cell: Optional[Tuple[str, str]]) -> 
 
 def non_history_part(o) -> tuple:
     d = vars(o)
-    return tuple((k, freeze(v)) for k, v in sorted(d.items()) if not k.endswith(HISTORY_ONLY_SUFFIXES))
+    hn = hist_names(o)
+    return tuple((k, freeze(v)) for k, v in sorted(d.items()) if k not in hn)
 
 
 def observe(o: BiddingPhase) -> dict:
@@ -183,11 +243,19 @@ def observe(o: BiddingPhase) -> dict:
 
 
 def table_of(o: BiddingPhase) -> Optional[dict]:
-    for k, v in vars(o).items():
-        if k.endswith('__declarer_check'):
-            return {(pair.name, suit.name): (pl.name if pl is not None else None)
-                    for pair, row in v.items() for suit, pl in row.items()}
-    return None
+    """The first-to-name table, if the object keeps one in the nested pair -> denomination -> seat form (a differently organised table
+    is not inspected; contract() is the public view of it anyway)."""
+    t = type(o)
+    if t not in _TABLE_ATTR:
+        _TABLE_ATTR[t] = next((k for k, v in vars(o).items() if type(v) is dict and v and all(
+            isinstance(p, Pair) and type(row) is dict and all(isinstance(pl, Player) or pl is None for pl in row.values()) for p, row in v.items())), None)
+    k = _TABLE_ATTR[t]
+    if k is None:
+        return None
+    try:
+        return {(pair.name, suit.name): (pl.name if pl is not None else None) for pair, row in vars(o)[k].items() for suit, pl in row.items()}
+    except (AttributeError, KeyError):
+        return None
 
 
 def check_state(o: BiddingPhase, hist: List[str], dealer: str, vul: str, c: Counter, where: str):
@@ -258,7 +326,7 @@ def apply_call(o: BiddingPhase, idx: int):
         return e
 
 
-def explore(dealer: str, vul: str, cell: Optional[Tuple[str, str]], c: Counter, max_states: int = 120_000,
+def explore(dealer: str, vul: str, cell: Optional[Tuple[str, str]], c: Counter, max_states: int = 80_000,
             alphabet: Optional[List[int]] = None, merge: bool = True, max_depth: int = 10 ** 9):
     """BFS over canonical states; every call of `alphabet` (default all 38) offered in every state."""
     alphabet = list(range(38)) if alphabet is None else alphabet
@@ -268,11 +336,19 @@ def explore(dealer: str, vul: str, cell: Optional[Tuple[str, str]], c: Counter, 
     k0 = canon(o0, [], cell) if merge else ()
     seen[k0] = non_history_part(o0)
     frontier = deque([(o0, [])])
+    after_refusal: set = set()
+    keep_alive: list = []
+    t_start = time.time()
     while frontier:
+        if time.time() - t_start > UNIT_TIME_BOX:
+            c.inc('cap_hit')
+            c.inc('time_boxed_units')
+            break
         if c.enough():
             c.inc('stopped_early_after_violations')
             break
         o, hist = frontier.popleft()
+        o_orig = o
         c.mx('max_depth', len(hist))
         before = clone(o)
         fin_ref = R.finished(hist)
@@ -315,9 +391,13 @@ def explore(dealer: str, vul: str, cell: Optional[Tuple[str, str]], c: Counter, 
                     # something private changed without an effect that can be seen at once: the object after the refusal is a state of its
                     # own (same history) and is explored like any other, so that a later effect of the refusal meets the oracle
                     k3 = (canon(o3, hist, cell) if merge else tuple(hist)) + ('after-refusal',)
-                    if k3 not in seen and len(seen) < max_states:
+                    if k3 not in seen and len(seen) < max_states and id(o_orig) not in after_refusal:
+                        # (one level only: a state that was itself reached by a refusal does not spawn further ones - a refusal
+                        # counter would otherwise make the chain endless)
                         seen[k3] = non_history_part(o3) if merge else None
                         frontier.append((o3, hist))
+                        after_refusal.add(id(o3))
+                        keep_alive.append(o3)
                         c.inc('states_after_a_refusal')
                 continue
             o2 = clone(o)
